@@ -131,6 +131,8 @@ pub fn run_scenario(seed: u64, i: usize, cells: &[Cell], tier: Tier) -> Outcome 
     let replay = replay_of("C02", seed, i, &tcfg, &wcfg.topo);
     let tc2 = tcfg.clone();
     let install = |world: &std::sync::Arc<crate::world::World>| {
+        // an echo reply naming the sequence of a UDP / TCP probe: another protocol's datagram
+        crate::forge::install_echo_adversary(world, &tc2, 16);
         let (host4, host6) = {
             let w = world.inner.lock().unwrap();
             (w.cfg.host_v4, w.cfg.host_v6)
@@ -214,9 +216,38 @@ pub fn run_scenario(seed: u64, i: usize, cells: &[Cell], tier: Tier) -> Outcome 
     o
 }
 
+/// An ICMP probe carries nothing but (identifier, sequence), every tracer of a process starts at
+/// the same sequence and sees every ICMP packet of the host: the identifiers the application
+/// assigns to its tracers (`trip a b c ...`) are what keeps a tracer from accepting the quotation
+/// of a sibling's probe.  Exhaustive over the process id for up to 8 tracers: pairwise distinct,
+/// and never 0 (the value every tracer accepts).
+fn identifiers_job(seed: u64) -> Outcome {
+    let mut o = Outcome::default();
+    for pid in 0..=u16::MAX {
+        let ids: Vec<u16> = (0..8).map(|i| trippy_tui::verif::trace_identifier(pid, i)).collect();
+        o.hit("sibling_tracers_get_distinct_nonzero_identifiers");
+        let mut sorted = ids.clone();
+        sorted.sort_unstable();
+        sorted.dedup();
+        if sorted.len() != ids.len() || ids.contains(&0) {
+            let kind = if ids.contains(&0) { "zero" } else { "collision" };
+            o.violate(
+                "sibling_tracers_get_distinct_nonzero_identifiers",
+                kind,
+                format!("process id {pid}: the tracers with index 0..8 get the identifiers {ids:?}"),
+                json!({"how": format!("vcheck C02 --seed {seed}"), "pid": pid, "identifiers": ids}),
+            );
+            if o.violations.len() >= 8 {
+                break;
+            }
+        }
+    }
+    o
+}
+
 pub fn run(tier: Tier, seed: u64, only: Option<usize>) -> i32 {
     let mut rep = Report::new("C02", "exploration", tier, seed);
-    rep.rule = "scenario = cell x initial sequence x lossless in-order path of 253 routers + the target at ttl 254 = max-ttl (max-inflight 255, so every round issues 254 consecutive sequences; half of the TCP scenarios with 3..25% local port collisions, i.e. re-issued probes); per hop the quotation shape is drawn: IPv4 header+8 / +28 / +n / full (IPv6 always as much as fits), RFC 4884 none / length-only / compliant / legacy with MPLS and unknown objects, routers answering with destination unreachable (net / host / prohibited) instead of time exceeded, the target's port unreachable in every RFC 4884 shape, quoted TTL 0/1, quoted header checksum recomputed or stale, TOS rewritten, IPv4 options in the outer header; 4% of the genuine responses are delivered again one to two rounds later; 6% of genuine responses are preceded by a near-miss forgery (other destination, other protocol, other identifier / fixed port, Dublin marker altered, other ICMP type/code) which must complete nothing; every probe whose genuine response was read must be Complete with the right responder; thorough walks initial sequences so that every issuable value is issued (per-cell counts under distinct_observed seq:<cell>)".into();
+    rep.rule = "scenario = cell x initial sequence x lossless in-order path of 253 routers + the target at ttl 254 = max-ttl (max-inflight 255, so every round issues 254 consecutive sequences; half of the TCP scenarios with 3..25% local port collisions, i.e. re-issued probes); per hop the quotation shape is drawn: IPv4 header+8 / +28 / +n / full (IPv6 always as much as fits), RFC 4884 none / length-only / compliant / legacy with MPLS and unknown objects, routers answering with destination unreachable (net / host / prohibited) instead of time exceeded, the target's port unreachable in every RFC 4884 shape, quoted TTL 0/1, quoted header checksum recomputed or stale, TOS rewritten, IPv4 options in the outer header; 4% of the genuine responses are delivered again one to two rounds later; 6% of genuine responses are preceded by a near-miss forgery (other destination, other protocol, other identifier / fixed port, Dublin marker altered, other ICMP type/code) which must complete nothing; every probe whose genuine response was read must be Complete with the right responder; the identifiers the application assigns to sibling tracers are checked exhaustively over the process id (8 tracers: pairwise distinct, never 0); thorough walks initial sequences so that every issuable value is issued (per-cell counts under distinct_observed seq:<cell>)".into();
     rep.assumptions = vec![
         "IPv6 routers quote as much of the datagram as fits in 1280 octets (RFC 4443 2.4c); IPv4 error messages with RFC 4884 structure are capped at 576 octets (RFC 1812)".into(),
         "a forgery differs from the genuine quotation in one identity component and arrives 1..50us before it".into(),
@@ -233,7 +264,10 @@ pub fn run(tier: Tier, seed: u64, only: Option<usize>) -> i32 {
             }
             rep.merge(o);
         }
-        None => rep.run_parallel(n, |i| run_scenario(seed, i, &cells, tier)),
+        None => {
+            rep.run_parallel(n, |i| run_scenario(seed, i, &cells, tier));
+            rep.merge(identifiers_job(seed));
+        }
     }
     // exhaustiveness of the sequence walk (thorough): every cell must have seen every issuable value
     let mut per_cell = serde_json::Map::new();
